@@ -934,6 +934,10 @@ func kinds() *World {
 			"lt_o":   {IsOptional: true, Constraint: schema.LiteralType{Type: cty.Object(map[string]cty.Type{"k": cty.String, "n": cty.Number})}},
 			"lt_t":   {IsOptional: true, Constraint: schema.LiteralType{Type: cty.Tuple([]cty.Type{cty.String, cty.Bool})}},
 			"td5":    {IsOptional: true, Constraint: schema.TypeDeclaration{}},
+			"any_n":  {IsOptional: true, Constraint: schema.AnyExpression{OfType: cty.Number}},
+			// an attribute name with a letter followed by a combining mark (two code points, one column)
+			"obj2":   {IsOptional: true, Constraint: schema.Object{Attributes: schema.ObjectAttributes{"p": {IsOptional: true, Constraint: schema.LiteralType{Type: cty.String}}, "qe\u0301": {IsOptional: true, Constraint: schema.LiteralType{Type: cty.Bool}}}}},
+			"obj3":   {IsOptional: true, Constraint: schema.Object{Attributes: schema.ObjectAttributes{"p": {IsOptional: true, Constraint: schema.LiteralType{Type: cty.String}}, "q": {IsOptional: true, Constraint: schema.LiteralType{Type: cty.Bool}}}}},
 			"any_c":  {IsOptional: true, Constraint: schema.AnyExpression{OfType: cty.String}},
 			"any_s2": {IsOptional: true, Constraint: schema.AnyExpression{OfType: cty.String}},
 			"mp2":    {IsOptional: true, Constraint: schema.Map{Elem: schema.AnyExpression{OfType: cty.Number}, AllowInterpolatedKeys: true}},
@@ -986,6 +990,15 @@ obj  = { p = "v", q = !true }
 any_s = "pre-${thing.a.s}-${upper("x")}"
 any_l = [1, thing.a.n, max(1, 2)]
 any_o = { k = thing.a.s }
+any_n = lookup(thing.a.m,  "k1", 0)
+obj2 = {
+  p = "v"
+  qé = true
+}
+obj3 = {
+  p = "naı̈ve" # 👍🏽 ok
+  q # 👍🏽 ok
+}
 any_d = thing.b.l[0]
 lt_l = ["a"]
 lt_m = { a = 1 }
@@ -1280,7 +1293,8 @@ func modsWorld(unreadable bool) *World {
 			// many origins, several of them sharing a range (a local origin and the implied origin of module.m.x): their order must not depend on anything
 			"module \"wide\" {\n  source = \"./mod\"\n  name   = module.m.x\n  size   = module.m.x\n}\n" +
 			"output \"many\" {\n  value = [module.m.x, var.name, module.m.x, var.region, module.m.x, var.name, module.m.x, var.region, module.m.x]\n}\n"},
-		Peers: map[string]*World{"p2": sub, "p1#vars": vars}}
+		// a further directory with the same vars file: two origins of different paths with one file name and one range
+		Peers: map[string]*World{"p2": sub, "p1#vars": vars, "p3#vars": {Name: "mods-vars3", Schema: varsSchema, Funcs: stdFuncs(), Docs: map[string]string{"x.tfvars": vars.Docs["x.tfvars"]}}}}
 	if unreadable {
 		w.Name = "modsbroken"
 		w.Unreadable = []string{"p2"}
